@@ -158,6 +158,10 @@ def main():
             # bytecode written for A, then bytecode writing switched off and B (same length, same second) defined
             'same-process A, dont_write_bytecode, B, A (same length)': [[('P', A, ON), ('!dwb', True, None), ('P', B, ON), ('P', A, ON),
                                                                           ('!dwb', False, None), ('P', B, ON)]],
+            # a blank cache file (imports, defines nothing): before the first definition, and between two definitions
+            'blank cache file, then A': [[('!blank', 'P', True), ('P', A, ON)]],
+            'A | blank cache file, then A again and B': [[('P', A, ON)], [('!blank', 'P', True), ('P', A, ON), ('P', B, ON)]],
+            'same-process A, blank cache file, A (module stays in sys.modules)': [[('P', A, ON), ('!blank', 'P', False), ('P', A, ON), ('P', B, OFFP)]],
             'two processes A | B (same length)': [[('P', A, ON)], [('P', B, ON)]],
             'three processes A | B | A': [[('P', A, ON)], [('P', B, ON)], [('P', A, ON)]],
             'processes with options changed': [[('P', A, ON)], [('P', A, OFFP)], [('P', B, OFFU)], [('P', B, ON)]],
@@ -168,8 +172,14 @@ def main():
                 os.makedirs(w)
                 ok, detail = True, []
                 for pi, defs in enumerate(procs):
-                    body = '\n'.join(('sys.dont_write_bytecode = %r' % (f,)) if n == '!dwb' else cls_src(n, f, o, 'p%dd%d' % (pi, di))
-                                     for di, (n, f, o) in enumerate(defs))
+                    def piece(di, n, f, o):
+                        if n == '!dwb':
+                            return 'sys.dont_write_bytecode = %r' % (f,)
+                        if n == '!blank':   # a cache file that imports and defines nothing (empty; left by something else)
+                            return ("os.makedirs('__pkts__', exist_ok=True); open(os.path.join('__pkts__', 'decls_%s.py'), 'w').close(); "
+                                    "sys.modules.pop('decls_%s', None) if %r else None" % (f, f, bool(o)))
+                        return cls_src(n, f, o, 'p%dd%d' % (pi, di))
+                    body = '\n'.join(piece(di, n, f, o) for di, (n, f, o) in enumerate(defs))
                     res, err = run(repo, w, DECL % dict(dwb=dwb, body=body))
                     if res is None:
                         ok = False
